@@ -208,6 +208,23 @@ fn f64_3d(d: &mut Draw) -> Outcome {
     // t + t2 is rounded once: eps |t + t2| in the angle
     ensure!(e <= 4.0 * tol + 2.0 * f64::EPSILON * (t + t2).abs() * (1.0 + v.magnitude()), "angles-add-f64", "R(a,t1)R(a,t2) vs R(a,t1+t2) differ by {:e} on v", e);
     let nt = t.sin().abs() > 1e-3 && t.cos().abs() > 1e-3 && a.iter().all(|c| c.abs() > 1e-3);
+    // any finite angle gives a rotation: at magnitudes where a value comparison is meaningless (the radian measure of a
+    // huge Deg is only known to whole turns) the result must still be finite, orthonormal and proper
+    {
+        let huge = d.f64_slog(1e290, f64::MAX);
+        let (hm3, hq, hb3, hm4, hm2): (Matrix3<f64>, Quaternion<f64>, Basis3<f64>, Matrix4<f64>, Matrix2<f64>) = if d.bool() {
+            (Matrix3::from_axis_angle(axis, Deg(huge)), Rotation3::from_axis_angle(axis, Deg(huge)), Rotation3::from_angle_y(Deg(huge)), Matrix4::from_angle_x(Deg(huge)), Matrix2::from_angle(Deg(huge)))
+        } else {
+            (Matrix3::from_axis_angle(axis, Rad(huge)), Rotation3::from_axis_angle(axis, Rad(huge)), Rotation3::from_angle_y(Rad(huge)), Matrix4::from_angle_x(Rad(huge)), Matrix2::from_angle(Rad(huge)))
+        };
+        let e = (hm3 * hm3.transpose()).rm().max_abs_diff(&RM::ident(3));
+        ensure!(e <= 1e-12 && (hm3.determinant() - 1.0).abs() <= 1e-12, "huge-angle-matrix3", "from_axis_angle with an angle of {:e}: R R^T - I = {:e}, det = {}", huge, e, hm3.determinant());
+        ensure!((hq.magnitude() - 1.0).abs() <= 1e-12, "huge-angle-quaternion", "from_axis_angle with an angle of {:e}: |q| = {}", huge, hq.magnitude());
+        let mb: Matrix3<f64> = hb3.into();
+        ensure!((mb * mb.transpose()).rm().max_abs_diff(&RM::ident(3)) <= 1e-12, "huge-angle-basis3", "Basis3::from_angle_y with an angle of {:e} is not orthonormal", huge);
+        ensure!((hm4 * hm4.transpose()).rm().max_abs_diff(&RM::ident(4)) <= 1e-12, "huge-angle-matrix4", "Matrix4::from_angle_x with an angle of {:e} is not orthonormal", huge);
+        ensure!((hm2 * hm2.transpose()).rm().max_abs_diff(&RM::ident(2)) <= 1e-12 && (hm2.determinant() - 1.0).abs() <= 1e-12, "huge-angle-matrix2", "Matrix2::from_angle with an angle of {:e} is not a rotation", huge);
+    }
     pass(if use_deg { "deg" } else { "rad" }, nt)
 }
 
@@ -247,7 +264,7 @@ pub fn property() -> Property {
     add!("axis_angle-Q", "Q", exact_3d, 4000, 250_000, 48, &[("generic", 100)]);
     add!("from_angle_xyz-Q", "Q", exact_axes, 4000, 250_000, 24, &[("generic", 200)]);
     add!("from_angle_2d-Q", "Q", exact_2d, 4000, 250_000, 32, &[("generic", 200)]);
-    add!("axis_angle-f64", "f64", f64_3d, 6000, 400_000, 48, &[("rad", 200), ("deg", 200)]);
+    add!("axis_angle-f64", "f64", f64_3d, 6000, 400_000, 64, &[("rad", 200), ("deg", 200)]);
     add!("from_angle_2d-f64", "f64", f64_2d, 4000, 200_000, 16, &[("rad", 200), ("deg", 200)]);
     Property {
         id: "C06",
